@@ -184,8 +184,24 @@ class Ctx:
             raise Infra(f'lake {args} timed out') from e
 
     def lean_build(self, targets: Sequence[str]) -> tuple[bool, str]:
-        r = self.lake(['build', *targets])
-        return r.returncode == 0, (r.stdout + r.stderr)
+        # Several checks may run at once and share modules: two `lake build`s writing the same
+        # .setup.json/.olean race (seen as "failed to load header ... unexpected end of input").
+        # Builds are therefore serialised by a lock file; a failure that names no source location
+        # (not a Lean error in a .lean file) is retried once.  A genuine proof break is a source
+        # error and fails both times.
+        import fcntl
+        lock = open(os.path.join(LEAN_DIR, '.build.lock'), 'w')
+        try:
+            fcntl.flock(lock, fcntl.LOCK_EX)
+            r = self.lake(['build', *targets])
+            log = r.stdout + r.stderr
+            if r.returncode != 0 and not re.search(r'error: \S+\.lean:\d+:\d+:', log):
+                r = self.lake(['build', *targets])
+                log = r.stdout + r.stderr
+            return r.returncode == 0, log
+        finally:
+            fcntl.flock(lock, fcntl.LOCK_UN)
+            lock.close()
 
     def lean_sources_audit(self) -> list[str]:
         """grep for forbidden constructs outside comments in every Lean source."""
